@@ -1,9 +1,22 @@
 /-
   C18 — the three idioms (oneshot, pick_up_where_you_left_off, either_or) and the OneShot decorator.
 
-  Delivered: the machine-checked core listed in the task (XOR fold and KNOWN FINDING K3, the structure of the
-  three idioms, the leaf / decorator facts that carry them, the latch of the OneShot decorator over all
-  histories) and end-to-end executions of the real idiom builders.
+  Delivered: the machine-checked core of the property (the general-n, all-histories statements of the three
+  idioms are not proved as single theorems):
+   §1 the XOR fold of the `either_or` check computes the PARITY of the number of true conditions; hence the clause
+      "fails when several conditions hold" is FALSE for an odd number ≥ 3 (KNOWN FINDING K3):
+      `C18_eo_fail_several_partial` (explicit hypothesis "even number ≥ 2"), counterexample and refutation.
+   §4 OneShot decorator: the latch survives every history (ticks, interrupts, pokes) and every later tick returns
+      the latched status without entering the child; an unlatched one-shot mirrors its child and latches exactly on
+      a completion covered by the policy; an interrupt does not latch.  The oneshot idiom: shape, guard, result leaf.
+   §2 either_or: shape, distinct flag keys, flags written / readable, guard, the memory root does not re-run the XOR
+      leaf while the chooser is RUNNING (entry block and whole tick), at most one active child in every reachable state.
+   §3 pick_up_where_you_left_off: shape, a task whose flag is set is not entered / one whose flag is not set is, the
+      flag is written iff the task returned SUCCESS, the clearing leaves are reached only after all guarded tasks
+      returned SUCCESS, `stop(INVALID)` cannot touch the blackboard.
+   §5 executions of the real builders (`Idioms.pickUp/eitherOr/oneshot` + `Idioms.renumber`).
+  Note: `Val.beq` follows Python in identifying `True` with the integer 1, so a guard `flag == True` also passes on a
+  flag holding 1; the guard theorems say so explicitly (the idioms themselves only ever write booleans / statuses).
 -/
 import PyTreesProofs.Lemmas.NoInternal
 import PyTreesProofs.Lemmas.Stop
